@@ -15,7 +15,9 @@ RULE = ("K: (a) SimulationObject.check_overlap (private anchor, used directly) f
         "relations, weighted towards strictly-inside, touching, one-axis-apart): which loop applied each source "
         "(state present after place_objects / object replaced by apply_params) compared exactly with the model's two "
         "loops; property oracle: the state of every source after apply_params equals the state obtained by applying the "
-        "object directly against the post-device arrays (1e-12). non-trivial = distinct per-axis relation triple x kind.")
+        "object directly against ALL post-device arrays (inverse permittivity, pole coefficients c1..c4, conductivity; "
+        "1e-12); half of the scenes give the device a Lorentz/Drude material so that the parameters also rewrite the "
+        "coefficient arrays (state incl. the plane sources' _temporal_H_filter). non-trivial = distinct per-axis relation triple x kind.")
 
 _jax = None
 
@@ -149,6 +151,7 @@ def run_predicate(ctx):
 # ----------------------------------------------------------------------------- part (b): scenes
 DIPOLE_FIELDS = ["_inv_eps_local", "_inv_mu_local", "_inv_eps_oriented", "_inv_mu_oriented"]
 PLANE_FIELDS = ["_E", "_H", "_time_offset_E", "_time_offset_H"]
+PLANE_OPTIONAL = ["_temporal_H_filter"]          # set only in dispersive scenes (None otherwise)
 
 
 def build_scene(inp):
@@ -168,7 +171,13 @@ def build_scene(inp):
     # objects are listed in the order given by inp["order"] (devices and others interleaved)
     entries = []
     for i, box in enumerate(inp["devices"]):
-        mats = {"lo": fdtdx.Material(permittivity=2.0 + i), "hi": fdtdx.Material(permittivity=6.0 + i)}
+        disp = None
+        if inp.get("dispersive"):
+            # one device material is dispersive: the parameters then also rewrite the pole-coefficient arrays
+            pole = (fdtdx.LorentzPole(resonance_frequency=3.0e15, damping=1.0e14, delta_epsilon=1.5) if inp["dispersive"] == "lorentz"
+                    else fdtdx.DrudePole(plasma_frequency=2.0e15, damping=1.0e14))
+            disp = fdtdx.DispersionModel(poles=(pole,))
+        mats = {"lo": fdtdx.Material(permittivity=2.0 + i), "hi": fdtdx.Material(permittivity=6.0 + i, dispersion=disp)}
         entries.append((f"dev{i}", fdtdx.Device(name=f"dev{i}", partial_grid_shape=shp(box), partial_voxel_grid_shape=(1, 1, 1),
                                                  materials=mats, param_transforms=[]), box))
     if inp.get("static"):
@@ -196,8 +205,8 @@ def build_scene(inp):
     return objs, cfg, cons
 
 
-def state_of(obj, kind):
-    fields = DIPOLE_FIELDS if kind == "dipole" else PLANE_FIELDS if kind == "plane" else []
+def state_of(obj, kind, optional=False):
+    fields = DIPOLE_FIELDS if kind == "dipole" else PLANE_FIELDS + (PLANE_OPTIONAL if optional else []) if kind == "plane" else []
     out = {}
     for f in fields:
         try:
@@ -246,11 +255,20 @@ def _run_scene(inp):
         placed = all(v is not None for v in st0.values())
         tags.append(("P" if placed else "") + ("A" if after is not before else ""))
         # property: the state after apply_params is the state of a set-up against the post-device arrays
-        direct = before.apply(key=jax.random.PRNGKey(9), inv_permittivities=arr2.inv_permittivities,
-                              inv_permeabilities=arr2.inv_permeabilities,
+        # (ALL post-device arrays: inverse permittivity/permeability, pole coefficients, conductivity)
+        sg = jax.lax.stop_gradient
+        direct = before.apply(key=jax.random.PRNGKey(9), inv_permittivities=sg(arr2.inv_permittivities),
+                              inv_permeabilities=sg(arr2.inv_permeabilities),
+                              dispersive_c1=arr2.dispersive_c1, dispersive_c2=arr2.dispersive_c2,
+                              dispersive_c3=arr2.dispersive_c3, dispersive_c4=arr2.dispersive_c4,
                               electric_conductivity=arr2.electric_conductivity)
-        want, got = state_of(direct, o["kind"]), state_of(after, o["kind"])
+        want, got = state_of(direct, o["kind"], True), state_of(after, o["kind"], True)
         for f in want:
+            if want[f] is None and got[f] is None:
+                continue
+            if want[f] is None:
+                detail = detail or f"{o['kind']} source {name} box {o['box']}: state {f} set after apply_params but a direct set-up leaves it unset"
+                continue
             if got[f] is None:
                 detail = detail or f"{o['kind']} source {name} box {o['box']} has no state {f} after apply_params"
                 continue
@@ -338,7 +356,7 @@ def gen_scene(rng, idx, thorough=False):
     n_entries = nd + (1 if static else 0) + len(objects)
     order = rng.shuffle(list(range(n_entries))) if rng.chance(0.6) else list(range(n_entries))
     return {"op": "scene", "volume": V, "devices": devs, "static": static, "objects": objects, "order": order,
-            "pseed": rng.randint(0, 1000)}
+            "pseed": rng.randint(0, 1000), "dispersive": rng.choice([None, None, "lorentz", "drude"])}
 
 
 def flat(box):
@@ -360,7 +378,8 @@ def check_scene(ctx, inp, sample=False):
         r = tuple(allen(tuple(o["box"][a]), tuple(inp["devices"][0][a])) for a in range(3))
         rels.append((o["kind"], r))
     for (kind, r), t, m in zip(rels, tags, model):
-        ctx.case(sample=None, nontrivial=("scene", kind, r), op="scene-object", kind=kind, applied_by={"P": "place_objects", "A": "apply_params"}.get(m, m))
+        ctx.case(sample=None, nontrivial=("scene", kind, r, inp.get("dispersive")), op="scene-object", kind=kind,
+                 dispersive_device=str(inp.get("dispersive")), applied_by={"P": "place_objects", "A": "apply_params"}.get(m, m))
         if kind != "detector":
             ctx.expect_equal("loops", inp, t, m)
     if sample:
@@ -371,7 +390,7 @@ def check_scene(ctx, inp, sample=False):
     return detail
 
 
-def witness_scene(kind="dipole"):
+def witness_scene(kind="dipole", dispersive=None):
     """the Lean refutation witness: a source strictly inside the device on all three axes"""
     o = {"kind": kind, "box": [(3, 4), (3, 4), (3, 4)], "pol": 0}
     if kind == "plane":
@@ -379,7 +398,7 @@ def witness_scene(kind="dipole"):
     else:
         o["stype"] = "electric"
     return {"op": "scene", "volume": [8, 8, 8], "devices": [[(1, 7), (1, 7), (1, 7)]], "static": None, "objects": [o],
-            "order": None, "pseed": 0}
+            "order": None, "pseed": 0, "dispersive": dispersive}
 
 
 def run(ctx):
@@ -390,6 +409,9 @@ def run(ctx):
     # the Lean refutation witness of the as-found tree first: a source strictly inside a device
     check_scene(ctx, witness_scene("dipole"), sample=True)
     check_scene(ctx, witness_scene("plane"))
+    # dispersive device material: re-applied sources must see the post-device pole coefficients as well
+    check_scene(ctx, witness_scene("dipole", "lorentz"))
+    check_scene(ctx, witness_scene("plane", "drude"))
     run_predicate(ctx)
     t2 = time.time()
     n = ctx.scale(14, 80)
@@ -432,11 +454,12 @@ def search(ctx, hints):
                     return
     # scenes: one device, one single-cell dipole at every per-axis position class, inside first
     for kind in ("dipole", "plane"):
-        ctx.impl_property_evals += 1
-        d = property_fails(witness_scene(kind))
-        if d:
-            ctx.violation(witness_scene(kind), d)
-            return
+        for disp in (None, "lorentz", "drude"):
+            ctx.impl_property_evals += 1
+            d = property_fails(witness_scene(kind, disp))
+            if d:
+                ctx.violation(witness_scene(kind, disp), d)
+                return
     pos = [3, 2, 4, 1, 5, 0, 6]
     for (x, y, z) in sorted(itertools.product(pos, repeat=3), key=lambda p: sum(pos.index(v) for v in p)):
         sc = {"op": "scene", "volume": [7, 7, 7], "devices": [[(2, 5), (2, 5), (2, 5)]], "static": None,
